@@ -12,7 +12,7 @@
     stack|chunks/...|axis|coords        unstack|x|axis|coords      repeat|x|r|axis|coords   copy|x|copy sizes|coords
     index|x|i ; s:start:stop:step:orig ; a:len|coords
     qr1|a|coords        qr3|q1|r2,c2|coords      qr2|r,n
-    reduced|shape|axes|keepdims(0/1)    bshapes|shape/shape/...    tree|k|d|nb     reggrid|c|n
+    reduced|shape|axes|keepdims(0/1)    aslices|lens|start|stop    bshapes|shape/shape/...    tree|k|d|nb     reggrid|c|n
   fn:  same | squeeze:axes | expand:axes | setaxis:axis:len | none
   Answers:  ok c=<chunkss> d=<declared|!> b=<block/block/...>     (block '!' = undefined, shape "-" = 0-d)
             error   (the derivation fails: one of the code's ValueErrors)
@@ -218,6 +218,12 @@ def handle (line : String) : String :=
     | [r2, c2] =>
       answer (some (parseChunks q1)) (qr3Block (parseChunks q1) r2 c2) (parseCoords coords)
     | _ => "bad-request"
+  | ["aslices", lens, start, stop] =>
+    match parseNat? start, parseNat? stop with
+    | some a, some b =>
+      let ps := arraySlices (parseNats lens) 0 0 a b
+      if ps.isEmpty then "-" else "/".intercalate (ps.map (fun p => s!"{p.1},{p.2.1},{p.2.2}"))
+    | _, _ => "bad-request"
   | ["reduced", shape, axes, kd] => dashNats (reducedShape (parseNats shape) (parseNats axes) (kd == "1"))
   | ["bshapes", shapes] =>
     showOptShape (broadcastShapes (if shapes.isEmpty then [] else (shapes.splitOn "/").map parseNats))
